@@ -873,7 +873,6 @@ func withInstr(j Job) string {
 	return j.Params + ";__instr=" + j.Instr
 }
 
-
 // warm builds every test binary the plans need once, so that the build cache
 // is hot when the checks run (setup_cmd).
 func warm() int {
